@@ -249,6 +249,7 @@ func (mc *MemoryChannel) appendRdb(writer *MemoryRdbWriter, buf []byte) (int, er
 
 		n := seg.blob.append(buf[:int(space)])
 		mc.totalSize += int64(n)
+		writer.rdb.written += int64(n)
 		mc.mux.Unlock()
 
 		if n == 0 {
@@ -271,7 +272,10 @@ func (mc *MemoryChannel) finishRdb(writer *MemoryRdbWriter, err error) {
 	if mc.rdbWriter == writer {
 		mc.rdbWriter = nil
 	}
-	if err != nil && mc.rdb == writer.rdb {
+	// a snapshot whose writer ended before all of its bytes were appended can
+	// never be replayed, whether the writer failed or was closed (err == nil)
+	incomplete := writer.rdb.written < writer.rdb.size
+	if (err != nil || incomplete) && mc.rdb == writer.rdb {
 		mc.totalSize -= writer.rdb.bufferedSize()
 		if mc.totalSize < 0 {
 			mc.totalSize = 0
@@ -695,6 +699,7 @@ func (s *memorySegment) nextSegment() *memorySegment {
 type memoryRdb struct {
 	left       int64
 	size       int64
+	written    int64 // bytes appended so far (guarded by MemoryChannel.mux)
 	replayable bool
 	segments   []*memorySegment
 }
